@@ -449,3 +449,44 @@ fire('C09', 'buffer-can-put-reads-missing-attr', 'C09.R5', 'Buffer.can_put',
      lambda p: M.replace_node(p, E_BUF, 'Buffer.can_put', lambda n: isinstance(n, ast.If), 'if self.inp_buf is None:\n    return False'))
 silent('C09', 'machine-probe-result-in-local',
        lambda p: M.replace_node(p, N_MAC, 'Machine.worker', M.assign_to('out_edge_index_to_put'), 'out_edge_index_to_put = None  # reset for this item', which=0))
+
+# ============================================================================================ C15
+U = 'utils/utils.py'
+fire('C15', 'roundrobin-starts-at-one', 'C15.R5', 'RoundRobin_edge_selector',
+     lambda p: M.replace_node(p, U, 'RoundRobin_edge_selector', M.assign_to('i'), 'i = 1', which=0))
+fire('C15', 'roundrobin-steps-by-two', 'C15.R5', 'RoundRobin_edge_selector',
+     lambda p: M.replace_node(p, U, 'RoundRobin_edge_selector', M.assign_to('i'), 'i = (i + 2) % len(edges)', which=1))
+fire('C15', 'roundrobin-advance-before-yield', 'C15.R5', 'RoundRobin_edge_selector',
+     lambda p: M.chain(p, lambda q: M.delete_stmt(q, U, 'RoundRobin_edge_selector', M.assign_to('i'), which=1),
+                       lambda q: M.insert_before(q, U, 'RoundRobin_edge_selector', lambda n: isinstance(n, ast.Expr) and isinstance(n.value, ast.Yield), 'i = (i + 1) % len(edges)')))
+fire('C15', 'random-off-by-one', 'C15.R6', 'Random_edge_selector',
+     lambda p: M.replace_node(p, U, 'Random_edge_selector', M.is_call('random.randint'), 'random.randint(0, len(edges))'))
+fire('C15', 'names-swapped', 'C15.R7', 'get_edge_selector',
+     lambda p: M.replace_node(p, U, 'get_edge_selector', lambda n: isinstance(n, ast.Dict), '{"RANDOM": RoundRobin_edge_selector, "ROUND_ROBIN": Random_edge_selector}'))
+fire('C15', 'machine-in-policy-on-out-edges', 'C15.R7', 'Machine.reset',
+     lambda p: M.replace_node(p, N_MAC, 'Machine.reset', M.is_call('get_edge_selector', 'in_edge_selection'), sub('"IN"', '"OUT"')))
+fire('C15', 'machine-selector-wraps-index', 'C15.R1', 'Machine._get_out_edge_index',
+     lambda p: M.replace_node(p, N_MAC, 'Machine._get_out_edge_index', M.assign_to('val'), 'val = next(self.out_edge_selection) % len(self.out_edges)', which=1))
+fire('C15', 'splitter-selector-consults-twice', 'C15.R1', 'Splitter._get_in_edge_index',
+     lambda p: M.insert_after(p, N_SPL, 'Splitter._get_in_edge_index', M.assign_to('val'), 'val = self.in_edge_selection()', which=2))
+fire('C15', 'machine-worker-selector-twice', 'C15.R1', 'Machine.worker',
+     lambda p: M.insert_after(p, N_MAC, 'Machine.worker', M.assign_to('out_edge_index_to_put'), 'out_edge_index_to_put = self._get_out_edge_index()', which=1))
+fire('C15', 'machine-worker-ignores-answer', 'C15.R1', 'Machine.worker',
+     lambda p: M.replace_node(p, N_MAC, 'Machine.worker', M.assign_to('outedge_to_put'), 'outedge_to_put = self.out_edges[0]'))
+fire('C15', 'machine-no-range-assert', 'C15.R3', 'Machine',
+     lambda p: M.chain(p, lambda q: M.delete_stmt(q, N_MAC, 'Machine._get_out_edge_index', lambda n: isinstance(n, ast.Assert)),
+                       lambda q: M.delete_stmt(q, N_MAC, 'Machine.worker', lambda n: isinstance(n, ast.Assert))))
+fire('C15', 'source-no-range-check', 'C15.R3', 'Source.behaviour',
+     lambda p: M.replace_node(p, N_SRC, 'Source.behaviour', M.if_testing('out_edge_index_to_put >= len(self.out_edges)'), 'pass'))
+fire('C15', 'machine-blocking-fa-records-wrong-index', 'C15.R2', 'Machine.worker',
+     lambda p: M.replace_node(p, N_MAC, 'Machine.worker', M.stmt_calling("self.stats['out_edge_selection'].append"), "self.stats['out_edge_selection'].append(0)"))
+fire('C15', 'machine-behaviour-no-in-record', 'C15.R2', 'Machine.behaviour',
+     lambda p: M.delete_stmt(p, N_MAC, 'Machine.behaviour', M.stmt_calling("self.stats['in_edge_selection'].append")))
+fire('C15', 'machine-fa-scan-reversed', 'C15.R4', 'Machine.worker',
+     lambda p: M.replace_node(p, N_MAC, 'Machine.worker', lambda n: isinstance(n, ast.For) and 'can_put' in ast.unparse(n), sub('for edge in self.out_edges:', 'for edge in reversed(self.out_edges):')))
+fire('C15', 'sink-fa-reserve-reversed', 'C15.R4', 'Sink.behaviour',
+     lambda p: M.replace_node(p, N_SNK, 'Sink.behaviour', M.assign_to('self.in_edge_events'), 'self.in_edge_events = [edge.inbuiltstore.reserve_get() for edge in self.in_edges[::-1]]'))
+silent('C15', 'roundrobin-commuted',
+       lambda p: M.replace_node(p, U, 'RoundRobin_edge_selector', M.assign_to('i'), 'i = (1 + i) % len(edges)', which=1))
+silent('C15', 'machine-assert-message-changed',
+       lambda p: M.replace_node(p, N_MAC, 'Machine._get_out_edge_index', lambda n: isinstance(n, ast.Assert), 'assert 0 <= val < len(self.out_edges), "bad index"'))
